@@ -49,7 +49,7 @@ func maxAmp[T constraints.Integer]() int64 { return int64(^uint64(0) >> (65 - wi
 // of a long buffer (value-level
 // behaviour must not depend on layout or on the buffers' history). The destination holds stale samples.
 func conv2[S, D signal.SignalTypes](conv func(*signal.Buffer[S], *signal.Buffer[D]) int, x0, x1 S) (D, D) {
-	a := signal.Allocator{Channels: 1, Length: 2, Capacity: 2}
+	a := signal.Allocator{Channels: 1, Length: 3, Capacity: 3} // three frames: odd sizes exercise loop remainders
 	layout := vf.PickOnce("layout", 0, 2+vf.Param("BigLayout", 0))
 	if vf.Param("WindowLayout", 1) == 1 && vf.PickOnce("windows", 0, 1) == 1 {
 		// both operands are windows (frame 1 onwards) of larger buffers
@@ -68,15 +68,15 @@ func conv2[S, D signal.SignalTypes](conv func(*signal.Buffer[S], *signal.Buffer[
 	}
 	if layout == 3 {
 		// a long mono buffer (size-dependent code paths); the two samples sit at its ends
-		n := vf.Param("BigFrames", 600)
+		n := vf.Param("BigFrames", 603)
 		a = signal.Allocator{Channels: 1, Length: n, Capacity: n}
 		src, dst := signal.Alloc[S](a), signal.Alloc[D](a)
 		dst.SetSample(0, 1)
-		dst.SetSample(n-1, 1)
+		dst.SetSample(n-2, 1)
 		src.SetSample(0, x0)
-		src.SetSample(n-1, x1)
+		src.SetSample(n-2, x1)
 		vf.Assert("frames-converted", conv(src, dst) == n)
-		return dst.Sample(0), dst.Sample(n - 1)
+		return dst.Sample(0), dst.Sample(n - 2)
 	}
 	src, dst := signal.Alloc[S](a), signal.Alloc[D](a)
 	if layout == 2 {
@@ -169,4 +169,31 @@ func C07_RT_UnsignedSigned[S constraints.Unsigned, D constraints.Signed]() {
 }
 func C07_RT_UnsignedUnsigned[S, D constraints.Unsigned]() {
 	c07rt[S, D](signal.UnsignedAsUnsigned[S, D], signal.UnsignedAsUnsigned[D, S])
+}
+
+// c07hist: a conversion on a long buffer gives, sample for sample, what it gives on a short one, whatever
+// sibling conversion into the same destination type ran on a long buffer before (no state carried between calls).
+func c07hist[A, B, D constraints.Integer](first func(*signal.Buffer[A], *signal.Buffer[D]) int, second func(*signal.Buffer[B], *signal.Buffer[D]) int) {
+	n := vf.Param("HistFrames", 1100)
+	al := signal.Allocator{Channels: 1, Length: n, Capacity: n}
+	a, d1 := signal.Alloc[A](al), signal.Alloc[D](al)
+	a.SetSample(0, vf.Any[A]("a"))
+	first(a, d1)
+	b, d2 := signal.Alloc[B](al), signal.Alloc[D](al)
+	x := vf.Any[B]("x")
+	b.SetSample(n-1, x)
+	second(b, d2)
+	one := signal.Allocator{Channels: 1, Length: 1, Capacity: 1}
+	sb, sd := signal.Alloc[B](one), signal.Alloc[D](one)
+	sb.SetSample(0, x)
+	second(sb, sd)
+	vf.Cover("history")
+	vf.Assert("independent-of-earlier-conversions", d2.Sample(n-1) == sd.Sample(0))
+}
+
+func C07_History_SignedThenUnsigned[A constraints.Signed, B constraints.Unsigned, D constraints.Signed]() {
+	c07hist[A, B, D](signal.SignedAsSigned[A, D], signal.UnsignedAsSigned[B, D])
+}
+func C07_History_UnsignedThenSigned[A constraints.Unsigned, B constraints.Signed, D constraints.Unsigned]() {
+	c07hist[A, B, D](signal.UnsignedAsUnsigned[A, D], signal.SignedAsUnsigned[B, D])
 }
